@@ -14,6 +14,16 @@
 //! exact in IEEE arithmetic, compared on canonical bits), x ratio from side 1 to side 2 of a gear
 //! train and / ratio back (4 ulp: a command that went /r then *r may differ in the last bits).
 //! Kind and stamp are exact. States are present on random slots but are not judged here.
+//!
+//! Delivery by FOLLOWING: some slots (fixed per case) follow a scripted getter
+//! (`Settable::<Datum<Command>, E>::follow`); every command such a slot ever receives comes through
+//! that getter and is pulled in by the device's own `update()` (device terminal) or by an explicit
+//! `Terminal::update` made by the harness before the device update (external terminal). A followed
+//! command is "issued" like any other one: after the device update every terminal must read the
+//! newest issued command. A followed getter that is absent issues nothing. Followed commands may
+//! also be OLDER than everything issued so far (stamps from a descending clock, still distinct);
+//! such a command is never delivered to the slot that issued the current newest command, so the
+//! newest issued command is never withdrawn by the harness itself.
 use rrtk::devices::*;
 use rrtk::*;
 use rrtk_mon::*;
@@ -36,6 +46,20 @@ fn own_state(t: &Term<'_>) -> Option<Datum<State>> {
 }
 fn read_cmd(t: &Term<'_>) -> Result<Out<Command>, String> {
     catch(|| <Terminal<'_, E> as Getter<Command, E>>::get(&t.borrow()))
+}
+type CSrc = Src<Datum<Command>>;
+fn follow_cmd(t: &Term<'_>, src: &CSrc) {
+    Settable::<Datum<Command>, E>::follow(&mut *t.borrow_mut(), src.dynref());
+}
+/// `Terminal::update` (polls the getters the terminal follows)
+fn term_update(t: &Term<'_>) -> Result<NothingOrError<E>, String> {
+    catch(|| Updatable::<E>::update(&mut *t.borrow_mut()))
+}
+/// Put a command into a scripted getter; the outer stamp of the getter's datum is arbitrary (the
+/// terminal stores the payload datum).
+fn src_put(rng: &mut Rng, src: &CSrc, d: Datum<Command>) {
+    let outer = if rng.chance(0.5) { d.time.0 } else { rng.range_i64(-(1i64 << 40), 1i64 << 40) };
+    src.some(outer, d);
 }
 fn mk_cmd(kind: usize, v: f32) -> Command {
     match kind {
@@ -81,6 +105,10 @@ fn ident(a: &Option<Datum<Command>>, b: &Option<Datum<Command>>) -> bool {
 #[derive(Clone, Copy)]
 enum Op {
     Cmd(usize, Datum<Command>),
+    /// the getter followed by this slot now returns this
+    Src(usize, Option<Datum<Command>>),
+    /// explicit Terminal::update of an external terminal
+    TermUpdate(usize),
     St(usize, Datum<State>),
     Update(usize),
 }
@@ -89,6 +117,8 @@ fn fmt_ops(ops: &[Op]) -> String {
         .iter()
         .map(|o| match o {
             Op::Cmd(s, d) => format!("{}.set({})", slot_name(*s), fmt_cmd(d)),
+            Op::Src(s, d) => format!("getter-followed-by-{} := {}", slot_name(*s), fmt_ocmd(d)),
+            Op::TermUpdate(s) => format!("{}.update()", slot_name(*s)),
             Op::St(s, d) => format!("{}.set(State[{} {} {}]@{})", slot_name(*s), f(d.value.position), f(d.value.velocity), f(d.value.acceleration), d.time.0),
             Op::Update(i) => format!("update(dev{})", i),
         })
@@ -111,8 +141,8 @@ impl Clock {
     fn new(rng: &mut Rng) -> Clock {
         Clock(match rng.below(4) {
             0 => rng.range_i64(-1000, 1000),
-            1 => -(1i64 << 40),
-            _ => rng.range_i64(-(1i64 << 40), 1i64 << 39),
+            1 => -(1i64 << 40) + (1i64 << 24),
+            _ => rng.range_i64(-(1i64 << 40) + (1i64 << 24), 1i64 << 39),
         })
     }
     fn next(&mut self, rng: &mut Rng) -> i64 {
@@ -121,6 +151,18 @@ impl Clock {
             3..=6 => rng.range_i64(2, 1000),
             _ => rng.range_i64(1000, 1i64 << 30),
         };
+        self.0
+    }
+}
+/// Strictly decreasing stamps below the start of a `Clock`: older than, and distinct from,
+/// everything either clock has produced (at most a few hundred steps of <= 1000: stays above -2^40).
+struct PastClock(i64);
+impl PastClock {
+    fn before(c: &Clock) -> PastClock {
+        PastClock(c.0)
+    }
+    fn next(&mut self, rng: &mut Rng) -> i64 {
+        self.0 -= if rng.chance(0.3) { 1 } else { rng.range_i64(2, 1000) };
         self.0
     }
 }
@@ -353,6 +395,8 @@ struct Plan {
     /// kind of the newest command of round 0
     first_kind: usize,
     rounds: usize,
+    /// per slot: the slot follows a scripted getter (all its commands arrive through it)
+    follow: Vec<bool>,
 }
 fn single_case(ctx: &mut Ctx, rng: &mut Rng, plan: &Plan) {
     macro_rules! go {
@@ -412,12 +456,24 @@ fn engine<'a>(ctx: &mut Ctx, rng: &mut Rng, dev: &mut dyn Updatable<E>, terms: &
         }
     };
     let usable: Vec<usize> = (0..2 * n).filter(|&s| s % 2 == 0 || plan.conn[s / 2]).collect();
+    // ---- followers: the slot's commands all arrive through a scripted getter
+    let follows = |s: usize| plan.follow[s] && (s % 2 == 0 || plan.conn[s / 2]);
+    let srcs: Vec<CSrc> = (0..2 * n).map(|_| CSrc::new()).collect();
+    let mut src_now: Vec<Option<Datum<Command>>> = vec![None; 2 * n];
+    for s in 0..2 * n {
+        if follows(s) {
+            follow_cmd(slot_term(s), &srcs[s]);
+        }
+    }
+    let followers: Vec<usize> = (0..2 * n).filter(|&s| follows(s)).collect();
     let mut clock = Clock::new(rng);
+    let mut past = PastClock::before(&clock);
     let mut ops: Vec<Op> = Vec::new();
     let mut newest: Option<(usize, Datum<Command>)> = None;
     let mut issuers: Vec<Option<usize>> = Vec::new();
+    let mut extras: Vec<(u32, u32)> = Vec::new();
     let p_state = *rng.pick(&[0.0, 0.3, 0.8]);
-    let header = format!("{} {:?} connected-externals {:?}", tag, plan.dev, plan.conn);
+    let header = format!("{} {:?} connected-externals {:?} slots-following-a-getter {:?}", tag, plan.dev, plan.conn, followers.iter().map(|&s| slot_name(s)).collect::<Vec<_>>());
     for round in 0..plan.rounds {
         // ---- slots that receive a new command, in stamp order
         let mut order: Vec<usize> = if round == 0 {
@@ -444,16 +500,50 @@ fn engine<'a>(ctx: &mut Ctx, rng: &mut Rng, dev: &mut dyn Updatable<E>, terms: &
             newest = Some((s, d));
             ctx.rep.tally(&format!("newest_at/{}/{}", tag, slot_name(s)));
             ctx.rep.tally(&format!("newest_kind/{}", KIND_NAMES[kind_of(&d.value)]));
+            if follows(s) {
+                ctx.rep.tally(&format!("newest_followed_at/{}/{}", tag, slot_name(s)));
+                ctx.rep.tally(&format!("followed/{}/{}/newest-of-all", fam, if s % 2 == 0 { "device-terminal" } else { "external-terminal" }));
+            }
         } else {
             ctx.rep.tally(if newest.is_some() { "rounds_without_new_command(re-update)" } else { "rounds_without_any_command" });
         }
         issuers.push(writes.last().map(|w| w.0));
+        // ---- followed getters: an OLDER command (never at the slot that issued the newest one), or absent
+        let (mut older_mask, mut absent_mask) = (0u32, 0u32);
+        let fresh: Vec<usize> = writes.iter().map(|w| w.0).collect();
+        for &s in &followers {
+            if fresh.contains(&s) {
+                continue;
+            }
+            let r = rng.below(10);
+            if r < 2 && newest.is_some() && newest.map(|x| x.0) != Some(s) {
+                let d = Datum::new(Time(past.next(rng)), mk_cmd(rng.usize(3), gen_value(rng, map.exact())));
+                writes.push((s, d));
+                older_mask |= 1 << s;
+                ctx.rep.tally(&format!("followed/{}/{}/older-than-present", fam, if s % 2 == 0 { "device-terminal" } else { "external-terminal" }));
+            } else if r < 4 {
+                ops.push(Op::Src(s, None));
+                srcs[s].none();
+                src_now[s] = None;
+                absent_mask |= 1 << s;
+                ctx.rep.tally(&format!("followed/{}/{}/getter-absent", fam, if s % 2 == 0 { "device-terminal" } else { "external-terminal" }));
+            }
+        }
+        extras.push((older_mask, absent_mask));
         // the order of the set() calls is unrelated to the stamp order
         for i in (1..writes.len()).rev() {
             let j = rng.usize(i + 1);
             writes.swap(i, j);
         }
         for &(s, d) in &writes {
+            if follows(s) {
+                ops.push(Op::Src(s, Some(d)));
+                src_put(rng, &srcs[s], d);
+                src_now[s] = Some(d);
+                ctx.rep.tally(&format!("delivered/{}/follow", fam));
+                continue;
+            }
+            ctx.rep.tally(&format!("delivered/{}/set", fam));
             ops.push(Op::Cmd(s, d));
             match set_cmd(slot_term(s), d) {
                 Ok(Ok(())) => {}
@@ -461,6 +551,20 @@ fn engine<'a>(ctx: &mut Ctx, rng: &mut Rng, dev: &mut dyn Updatable<E>, terms: &
                     ctx.rep.eval();
                     ctx.bad("C13/write/command-failed".into(), format!("set(command) -> {:?}; {} history {}", other, header, fmt_ops(&ops)));
                     return;
+                }
+            }
+        }
+        // external followers are polled by the harness (nobody else updates an external terminal)
+        for &s in &followers {
+            if s % 2 == 1 {
+                ops.push(Op::TermUpdate(s));
+                ctx.rep.eval();
+                match term_update(slot_term(s)) {
+                    Ok(Ok(())) => {}
+                    other => {
+                        ctx.bad("C13/follow/external-terminal-update-failed".into(), format!("Terminal::update -> {:?}; {} history {}", other, header, fmt_ops(&ops)));
+                        return;
+                    }
                 }
             }
         }
@@ -480,7 +584,9 @@ fn engine<'a>(ctx: &mut Ctx, rng: &mut Rng, dev: &mut dyn Updatable<E>, terms: &
         }
         // ---- premise: the newest issued command is what is readable at the terminals
         let pre: Vec<Result<Out<Command>, String>> = (0..n).map(|k| read_cmd(terms[k])).collect();
-        let pre_max = pre.iter().filter_map(|r| if let Ok(Ok(Some(d))) = r { Some(d.time) } else { None }).max();
+        // (a command waiting in a getter followed by a device terminal becomes present inside update())
+        let pending = followers.iter().filter(|&&s| s % 2 == 0).filter_map(|&s| src_now[s].map(|d| d.time));
+        let pre_max = pre.iter().filter_map(|r| if let Ok(Ok(Some(d))) = r { Some(d.time) } else { None }).chain(pending).max();
         if pre_max != newest.map(|x| x.1.time) {
             ctx.rep.tally("premise_newest_not_readable_before_update");
             return;
@@ -543,6 +649,9 @@ fn engine<'a>(ctx: &mut Ctx, rng: &mut Rng, dev: &mut dyn Updatable<E>, terms: &
                 };
                 let base = format!("C13/relay/{}/{}", fam, if site == 0 { "device-terminal" } else { "external-terminal" });
                 ctx.rep.tally(&format!("reads_checked/{}/{}", fam, route));
+                if let DevKind::Gear(_) = plan.dev {
+                    ctx.rep.tally(&format!("reads_checked/{}/{}", tag, route));
+                }
                 if !judge(ctx, &base, route, &got, nd.time, kind_of(&nd.value), val, tol, &format!("value_ulp/{}/{}", fam, route), &det) {
                     all_ok = false;
                 }
@@ -554,7 +663,7 @@ fn engine<'a>(ctx: &mut Ctx, rng: &mut Rng, dev: &mut dyn Updatable<E>, terms: &
         }
     }
     ctx.rep.tally(&format!("cases_completed/{}", ctx.sub));
-    ctx.rep.distinct((ctx.sub, tag.clone(), plan.conn.clone(), plan.first.clone(), plan.first_kind, issuers));
+    ctx.rep.distinct((ctx.sub, tag.clone(), plan.conn.clone(), plan.first.clone(), plan.first_kind, issuers, followers.clone(), extras));
     if ctx.rep.want_sample(ctx.sub) {
         ctx.rep.sample(ctx.sub, format!("{}; history {}: after every update every device terminal and connected external terminal read the newest command, mapped", header, fmt_ops(&ops)));
     }
@@ -574,6 +683,15 @@ fn random_dev(rng: &mut Rng) -> DevKind {
         }
         k => DevKind::Axle(k as usize - 5),
     }
+}
+/// Which slots follow a getter: mode 0 none, 1 all, otherwise each with a probability drawn per case.
+fn follow_mask(rng: &mut Rng, nslots: usize, mode: u64) -> Vec<bool> {
+    let p = match mode {
+        0 => 0.0,
+        1 => 1.0,
+        _ => *rng.pick(&[0.3, 0.7]),
+    };
+    (0..nslots).map(|_| rng.chance(p)).collect()
 }
 /// Random first-round assignment: each slot commanded with probability q, random order.
 fn random_first(rng: &mut Rng, nslots: usize) -> Vec<Option<u32>> {
@@ -629,7 +747,7 @@ fn chain_case(ctx: &mut Ctx, seed: u64) {
     let links: Vec<Link> = (0..n)
         .map(|_| {
             let kind = rng.below(3) as u8;
-            let w = *rng.pick(&[0u64, 0, 1, 2, 3, 4]);
+            let w = *rng.pick(&[0u64, 0, 1, 1, 2, 3, 4, 5, 6]);
             Link { kind, gear: GearCtor::random(rng, w), flipped: rng.chance(0.5) }
         })
         .collect();
@@ -668,13 +786,33 @@ fn chain_case(ctx: &mut Ctx, seed: u64) {
     if conn_far {
         connect(terms[n - 1].1, &ext[1]);
     }
-    let header = format!("chain of {}: {:?}; external terminal connected at near end: {}, at far end: {}", n, links.iter().map(|l| format!("{}{}{}", l.family(), if l.kind == 1 { format!("(r={} via {:?})", f(l.gear.ratio()), l.gear) } else { String::new() }, if l.flipped { "[entered at terminal 2]" } else { "" })).collect::<Vec<_>>(), conn_near, conn_far);
+    // ---- followers. End slots [near own, near ext, far own, far ext]: every command injected there
+    // arrives through the followed getter. Other device terminals may follow a getter that is absent
+    // or holds a command older than everything injected (it issues nothing new).
+    let pf = *rng.pick(&[0.0, 0.5, 0.5, 1.0]);
+    let end_follow: [bool; 4] = [rng.chance(pf), conn_near && rng.chance(pf), rng.chance(pf), conn_far && rng.chance(pf)];
+    let end_src: [CSrc; 4] = core::array::from_fn(|_| CSrc::new());
+    let end_term: [&Term<'_>; 4] = [terms[0].0, &ext[0], terms[n - 1].1, &ext[1]];
+    for e in 0..4 {
+        if end_follow[e] {
+            follow_cmd(end_term[e], &end_src[e]);
+        }
+    }
+    // inner terminals: index 2i (near of device i) / 2i+1 (far of device i), the two end terminals excluded
+    let inner: Vec<usize> = (1..2 * n - 1).filter(|_| rng.chance(0.15)).collect();
+    let inner_src: Vec<CSrc> = inner.iter().map(|_| CSrc::new()).collect();
+    for (j, &ix) in inner.iter().enumerate() {
+        let t = if ix % 2 == 0 { terms[ix / 2].0 } else { terms[ix / 2].1 };
+        follow_cmd(t, &inner_src[j]);
+    }
+    let header = format!("chain of {}: {:?}; external terminal connected at near end: {}, at far end: {}; end slots following a getter [near own, near ext, far own, far ext] = {:?}; inner device terminals following a getter {:?}", n, links.iter().map(|l| format!("{}{}{}", l.family(), if l.kind == 1 { format!("(r={} via {:?})", f(l.gear.ratio()), l.gear) } else { String::new() }, if l.flipped { "[entered at terminal 2]" } else { "" })).collect::<Vec<_>>(), conn_near, conn_far, end_follow, inner.iter().map(|&ix| format!("dev{}.{}", ix / 2, if ix % 2 == 0 { "near" } else { "far" })).collect::<Vec<_>>());
     // random states here and there (not judged)
     let p_state = *rng.pick(&[0.0, 0.3, 0.8]);
     let mut clock = Clock::new(rng);
+    let mut past = PastClock::before(&clock);
     let rounds = 1 + rng.usize(8);
     let mut log: Vec<String> = Vec::new();
-    let mut shape: Vec<(bool, bool)> = Vec::new();
+    let mut shape: Vec<(bool, bool, bool, u32)> = Vec::new();
     for round in 0..rounds {
         let forward = if round == 0 { first_forward } else { rng.chance(0.5) };
         let dir = if forward { "forward" } else { "backward" };
@@ -691,18 +829,56 @@ fn chain_case(ctx: &mut Ctx, seed: u64) {
         let kind = rng.usize(3);
         // |c| <= 1e20 so that the product over five gear trains stays a normal f32
         let c = Datum::new(Time(clock.next(rng)), mk_cmd(kind, gen_value_in(rng, false, 1e20)));
-        log.push(format!("{} end {}.set({})", if forward { "near" } else { "far" }, if via_ext { "external terminal" } else { "device terminal" }, fmt_cmd(&c)));
-        shape.push((forward, via_ext));
-        match set_cmd(if via_ext { entry_ext } else { entry_own }, c) {
-            Ok(Ok(())) => {}
-            other => {
+        // inner followers: absent, or an older command (round 0: none has been injected yet, so only absent)
+        let mut inner_mask = 0u32;
+        for (j, &ix) in inner.iter().enumerate() {
+            match rng.below(4) {
+                0 if round > 0 => {
+                    let d = Datum::new(Time(past.next(rng)), mk_cmd(rng.usize(3), gen_value_in(rng, false, 1e20)));
+                    src_put(rng, &inner_src[j], d);
+                    log.push(format!("getter followed by the {} terminal of dev{} := {}", if ix % 2 == 0 { "near" } else { "far" }, ix / 2, fmt_cmd(&d)));
+                    inner_mask |= 1 << ix;
+                    ctx.rep.tally("chain_inner_follower/older-command");
+                }
+                1 => {
+                    inner_src[j].none();
+                    log.push(format!("getter followed by the {} terminal of dev{} := None", if ix % 2 == 0 { "near" } else { "far" }, ix / 2));
+                    ctx.rep.tally("chain_inner_follower/absent");
+                }
+                _ => {}
+            }
+        }
+        let e = (if forward { 0 } else { 2 }) + via_ext as usize;
+        let followed = end_follow[e];
+        log.push(format!("{} end {}{}({})", if forward { "near" } else { "far" }, if via_ext { "external terminal" } else { "device terminal" }, if followed { ": followed getter := " } else { ".set" }, fmt_cmd(&c)));
+        shape.push((forward, via_ext, followed, inner_mask));
+        if followed {
+            src_put(rng, &end_src[e], c);
+            if via_ext {
+                // an external terminal is polled by the harness
+                log.push("that external terminal .update()".into());
                 ctx.rep.eval();
-                ctx.bad("C13/write/command-failed".into(), format!("set(command) -> {:?}; {} history {:?}", other, header, log));
-                return;
+                match term_update(entry_ext) {
+                    Ok(Ok(())) => {}
+                    other => {
+                        ctx.bad("C13/follow/external-terminal-update-failed".into(), format!("Terminal::update -> {:?}; {} history {:?}", other, header, log));
+                        return;
+                    }
+                }
+            }
+        } else {
+            match set_cmd(if via_ext { entry_ext } else { entry_own }, c) {
+                Ok(Ok(())) => {}
+                other => {
+                    ctx.rep.eval();
+                    ctx.bad("C13/write/command-failed".into(), format!("set(command) -> {:?}; {} history {:?}", other, header, log));
+                    return;
+                }
             }
         }
         ctx.rep.tally(&format!("chain_rounds/len{}/{}", n, dir));
         ctx.rep.tally(&format!("chain_inject/{}", if via_ext { "external" } else { "own-slot" }));
+        ctx.rep.tally(&format!("chain_inject/{}/{}/{}", dir, if via_ext { "external" } else { "own-slot" }, if followed { "followed-getter" } else { "set" }));
         // ---- update in order along the direction of travel
         let order: Vec<usize> = if forward { (0..n).collect() } else { (0..n).rev().collect() };
         let mut x = f32::from(c.value);
@@ -724,6 +900,9 @@ fn chain_case(ctx: &mut Ctx, seed: u64) {
             }
             let (t_in, t_out) = if forward { terms[i] } else { (terms[i].1, terms[i].0) };
             let x_out = links[i].cross(x, forward);
+            if links[i].kind == 1 {
+                ctx.rep.tally(&format!("chain_gear_crossed/{}/{}", links[i].gear.tag(), if forward != links[i].flipped { "1->2" } else { "2->1" }));
+            }
             // per-device clause: the newest command present at this device's terminals before its
             // update is the injected one (at its entry terminal): both terminals must now read it
             for (which, t, val, tol) in [("entry", t_in, x, 4 * crossed.max(1) as u64), ("exit", t_out, x_out, 4 * (crossed as u64 + 1))] {
@@ -781,7 +960,7 @@ fn chain_case(ctx: &mut Ctx, seed: u64) {
         }
     }
     ctx.rep.tally("cases_completed/chain");
-    ctx.rep.distinct(("chain", links.iter().map(|l| (l.kind, l.flipped, l.gear.tag())).collect::<Vec<_>>(), conn_near, conn_far, shape));
+    ctx.rep.distinct(("chain", links.iter().map(|l| (l.kind, l.flipped, l.gear.tag())).collect::<Vec<_>>(), conn_near, conn_far, shape, end_follow, inner.clone()));
     if ctx.rep.want_sample("chain") {
         ctx.rep.sample("chain", format!("{}; history {:?}: every device terminal right after its update and the far end after the pass read the injected command x partial / full product", header, log));
     }
@@ -932,8 +1111,8 @@ fn main() {
         let mut idx = 0u64;
         for rpt in 0..reps {
             for &(variant, nterm) in &variants {
-                if variant == 10 && rpt % 2 == 1 {
-                    continue; // Axle<3> (1957 assignments) every other repetition
+                if variant == 10 && rpt % 4 >= 2 {
+                    continue; // Axle<3> (1957 assignments): only the all-by-set and all-by-followed-getter repetitions
                 }
                 let asg = match nterm {
                     1 => &a2,
@@ -959,7 +1138,10 @@ fn main() {
                         };
                         let conn = conn_for(&mut rng, first);
                         let rounds = if rng.chance(0.5) { 1 + rng.usize(3) } else { 1 + rng.usize(8) };
-                        let plan = Plan { dev, conn, first: first.clone(), first_kind, rounds };
+                        // delivery: repetition 0 of every four all by set(), 1 all by followed getters, 2-3 mixed
+                        let follow = follow_mask(&mut rng, first.len(), rpt % 4);
+                        rep.tally(["assign_cases/all-by-set", "assign_cases/all-by-followed-getter", "assign_cases/mixed", "assign_cases/mixed"][(rpt % 4) as usize]);
+                        let plan = Plan { dev, conn, first: first.clone(), first_kind, rounds, follow };
                         rep.tally("assign_cases");
                         let mut ctx = Ctx { rep: &mut rep, sub: "assign", case };
                         single_case(&mut ctx, &mut rng, &plan);
@@ -967,8 +1149,11 @@ fn main() {
                 }
             }
         }
-        rep.exhaustive("Invert, GearTrain (with_ratio_raw, with_ratio, new with 2..6 gears), Axle<1>, Axle<2>, Axle<3>: every assignment of {no command, distinct stamp ranks} to the own and external slots (5 / 65 / 1957 assignments) x kind of the newest command");
+        rep.exhaustive("Invert, GearTrain (with_ratio_raw, with_ratio, new with 2..6 gears), Axle<1>, Axle<2>, Axle<3>: every assignment of {no command, distinct stamp ranks} to the own and external slots (5 / 65 / 1957 assignments) x kind of the newest command, once with every command delivered by set() and once with every command delivered through a followed getter");
         rep.floor("assign_cases", 1);
+        rep.floor("assign_cases/all-by-set", 1);
+        rep.floor("assign_cases/all-by-followed-getter", 1);
+        rep.floor("assign_cases/mixed", 1);
     }
     // ---- 2. axles 1..=6: every slot as the holder of the newest command x kind, others random
     {
@@ -999,7 +1184,9 @@ fn main() {
                             first[slot] = Some(top - 1);
                         }
                         let conn = conn_for(&mut rng, &first);
-                        let plan = Plan { dev: DevKind::Axle(n), conn, first, first_kind, rounds: 1 + rng.usize(8) };
+                        let mode = *rng.pick(&[0u64, 0, 1, 2, 2]);
+                        let follow = follow_mask(&mut rng, 2 * n, mode);
+                        let plan = Plan { dev: DevKind::Axle(n), conn, first, first_kind, rounds: 1 + rng.usize(8), follow };
                         let mut ctx = Ctx { rep: &mut rep, sub: "axle", case };
                         single_case(&mut ctx, &mut rng, &plan);
                     }
@@ -1014,7 +1201,9 @@ fn main() {
         let dev = random_dev(&mut rng);
         let first = random_first(&mut rng, 2 * dev.terms());
         let conn = conn_for(&mut rng, &first);
-        let plan = Plan { dev, conn, first, first_kind: rng.usize(3), rounds: 1 + rng.usize(8) };
+        let mode = *rng.pick(&[0u64, 0, 1, 2, 2]);
+        let follow = follow_mask(&mut rng, first.len(), mode);
+        let plan = Plan { dev, conn, first, first_kind: rng.usize(3), rounds: 1 + rng.usize(8), follow };
         let mut ctx = Ctx { rep: &mut rep, sub: "random", case };
         single_case(&mut ctx, &mut rng, &plan);
     }
@@ -1041,8 +1230,37 @@ fn main() {
         for (tag, n) in &tags {
             for s in 0..2 * n {
                 rep.floor(&format!("newest_at/{}/{}", tag, slot_name(s)), 20);
+                // ... and the same with that newest command delivered through a followed getter
+                rep.floor(&format!("newest_followed_at/{}/{}", tag, slot_name(s)), 10);
+            }
+            if tag.starts_with("GearTrain") {
+                // every constructor driven in both directions
+                for route in ["1->2", "2->1", "same-side"] {
+                    rep.floor(&format!("reads_checked/{}/{}", tag, route), 200);
+                }
+                for route in ["1->2", "2->1"] {
+                    rep.floor(&format!("chain_gear_crossed/{}/{}", tag, route), 200);
+                }
             }
         }
+        for fam in ["Invert", "GearTrain", "Axle"] {
+            for site in ["device-terminal", "external-terminal"] {
+                for what in ["newest-of-all", "older-than-present", "getter-absent"] {
+                    rep.floor(&format!("followed/{}/{}/{}", fam, site, what), 300);
+                }
+            }
+            rep.floor(&format!("delivered/{}/follow", fam), 1000);
+            rep.floor(&format!("delivered/{}/set", fam), 1000);
+        }
+        for dir in ["forward", "backward"] {
+            for slot in ["external", "own-slot"] {
+                for how in ["followed-getter", "set"] {
+                    rep.floor(&format!("chain_inject/{}/{}/{}", dir, slot, how), 500);
+                }
+            }
+        }
+        rep.floor("chain_inner_follower/older-command", 500);
+        rep.floor("chain_inner_follower/absent", 500);
         for k in KIND_NAMES {
             rep.floor(&format!("newest_kind/{}", k), 1000);
         }
